@@ -34,6 +34,17 @@ let parse_obs s =
    or None for harness-only ops *)
 type tok = { mk : (nat list * nat list) -> ev; spawn : (nat * nat list) option;
              obs : (nat list * nat list) list; observed : bool; scripted : nat list }
+(* objects whose destructor opens a stop/start window of its own: allocation tokens with `~` after the id *)
+let wins : int list ref = ref []
+let win (o : nat) : bool = List.mem (int_of_nat o) !wins
+let strip_tilde b = String.concat "" (String.split_on_char '~' b)
+let scan_wins ops =
+  wins := List.filter_map (fun o ->
+    let b = match String.index_opt o '@' with Some i -> String.sub o 0 i | None -> o in
+    let b = match String.index_opt b ':' with Some i -> String.sub b 0 i | None -> b in
+    match String.index_opt b '~' with
+    | Some i when i >= 2 -> (try Some (int_of_string (String.sub b 1 (i - 1))) with _ -> None)
+    | _ -> None) ops
 let parse_op s : tok option =
   let body, obs = match String.index_opt s '@' with
     | Some i -> String.sub s 0 i, Some (String.sub s (i+1) (String.length s - i - 1))
@@ -41,6 +52,7 @@ let parse_op s : tok option =
   let body, marks = match String.index_opt body ':' with
     | Some i -> String.sub body 0 i, ids_of (String.sub body (i+1) (String.length body - i - 1))
     | None -> body, [] in
+  let body = strip_tilde body in
   (* a<id>+c+c / q<id>+c+c : managed / raw object whose destructor allocates c, c, ... *)
   let body, children = match String.index_opt body '+' with
     | Some i -> String.sub body 0 i,
@@ -84,9 +96,9 @@ let model_token (s : st) (t : tok) : st * string =
     if will then (match t.obs with o :: r -> o, r | [] -> ([], t.scripted), [])
     else ([], t.scripted), t.obs in
   let sentinels = List.init nsent (fun _ -> ([], t.scripted)) in
-  let s1 = lc_step s (EObs (queue @ sentinels)) in
-  let s2 = lc_step s1 (t.mk first) in
-  let s3 = match t.spawn with Some (o, cs) -> lc_step s2 (ESpawn (o, cs)) | None -> s2 in
+  let s1 = lc_step win s (EObs (queue @ sentinels)) in
+  let s2 = lc_step win s1 (t.mk first) in
+  let s3 = match t.spawn with Some (o, cs) -> lc_step win s2 (ESpawn (o, cs)) | None -> s2 in
   let left = List.length s3.obsq in
   let missing = (will && t.obs = [] && t.observed) || (will && not t.observed) || left < nsent in
   let tag = if missing then "M" else if left > nsent then "U" else if t.obs <> [] then "C" else "-" in
@@ -118,12 +130,13 @@ let () =
     (* the collection threshold rule of the tree, tabulated for the generator's own simulation *)
     print_endline (String.concat " " (List.init 1500 (fun i -> string_of_int (int_of_nat (lc_rule (nat_of_int i))))))
   else if mode = "params" then
-    Printf.printf "rem_fix=%b sweep_fix=%b defer_fix=%b shape=%b main_atexit=%b main_after_return=%b error_exits=%b\n" lc_rem_fix lc_sweep_fix lc_defer_fix lc_shape lc_main_atexit lc_main_after lc_err_exit
+    Printf.printf "rem_fix=%b sweep_fix=%b defer_fix=%b shape=%b main_atexit=%b main_after_return=%b error_exits=%b start_stop_keep_pending=%b\n" lc_rem_fix lc_sweep_fix lc_defer_fix lc_shape lc_main_atexit lc_main_after lc_err_exit lc_start_keep
   else
   read_lines (fun line ->
     match String.split_on_char '|' line with
     | [_; ops] ->
       let ops = List.filter (fun s -> s <> "") (String.split_on_char ' ' ops) in
+      scan_wins ops;
       let buf = Buffer.create 256 in
       let first = ref true in
       let sep () = if !first then first := false else Buffer.add_string buf " | " in
@@ -132,7 +145,7 @@ let () =
           let _ = List.fold_left (fun s o ->
             if o.[0] = 'T' then begin
               (* program exit through route o.[1]: the wrapper's teardown arrangement decides *)
-              let s' = lc_terminate (route_of o.[1]) [] s in
+              let s' = lc_terminate win (route_of o.[1]) [] s in
               sep (); Buffer.add_string buf ("X;" ^ dump_model s'); s' end else
             match parse_op o with
             | None -> s
